@@ -412,6 +412,11 @@ func dumpValue(sb *strings.Builder, v reflect.Value, seen map[uintptr]int, depth
 		}
 		sb.WriteString("{")
 		for i := 0; i < v.NumField(); i++ {
+			if v.Type().Field(i).Name == "isoid" && strings.Contains(v.Type().PkgPath(), "tidwall/btree") {
+				// the copy-on-write generation counter of a btree header: bumped in the SOURCE tree by
+				// Copy(), invisible to readers (same exemption as in the engine's freeze monitor)
+				continue
+			}
 			dumpValue(sb, v.Field(i), seen, depth+1)
 			sb.WriteString(",")
 		}
